@@ -39,6 +39,12 @@ class ImplWorld:
     def start_unify(self, lhs, rhs, under=None):
         return {'gen': iter(impl.engine.unify(self.term(lhs), self.term(rhs))), 'done': False}
 
+    def start_match(self, goal):
+        """the dynamic facts enumerated through the API function that loaded scripts and hand-written
+        predicates use for it: yp.match_dynamic(atom, args)"""
+        args = [self.term(x) for x in goal[2]] if goal[0] == 'f' else []
+        return {'gen': iter(self.yp.match_dynamic(self.yp.atom(goal[1]), args)), 'done': False}
+
     def start_via_variable(self, goal):
         """goal = builtin(Arg): Arg reaches the builtin in a variable G that is bound by a unification
         of the caller's; the handle keeps that unification so that it can be ended (release) while the
@@ -100,6 +106,9 @@ class RefWorld:
         return {'gen': self.ref.iter_env(self.term(goal), env), 'env': None, 'done': False, 'base': env}
 
     def start_via_variable(self, goal):
+        return self.start(goal)
+
+    def start_match(self, goal):
         return self.start(goal)
 
     def release(self, h, rebind=False):
